@@ -64,6 +64,12 @@ def req(draw, names=NAMES):
         if draw(st.integers(0, 5)) == 0:
             it["postprocess"] = True
         items.append(it)
+    # the same URI may be named twice in a request (possibly with different directives)
+    if len(items) < 3 and draw(st.integers(0, 3)) == 0:
+        dup = dict(items[draw(st.integers(0, len(items) - 1))])
+        if draw(st.booleans()):
+            dup["validate"] = "vok"
+        items.insert(draw(st.integers(0, len(items))), dup)
     return items
 
 
@@ -149,6 +155,8 @@ def fixed_faults():
     return [
         {"requests": [g("a"), g("b", "c")], "tolerant": True, "parallel": False},
         {"requests": [g("a"), g("b", "c", "f")], "tolerant": False, "parallel": True},
+        {"requests": [g("a"), g("b", "b")], "tolerant": True, "parallel": False},
+        {"requests": [g("a", "b", "a")], "tolerant": True, "parallel": True},
     ]
 
 
